@@ -43,6 +43,11 @@ class chunks(object):
             decMax = 90.0
         self.decBounds = decMin + ((decMax - decMin) * np.arange(self.nDec + 1, dtype='d'))/float(self.nDec)
         #
+        # The last boundary is decMax by construction; do not let rounding
+        # push it beyond (in particular beyond +90 after clamping).
+        #
+        self.decBounds[self.nDec] = decMax
+        #
         # Find ra offset which minimizes the range in ra (this should take care
         # of the case that ra crosses zero in some parts
         #
